@@ -3,6 +3,9 @@ from .. import build, canon, simrun
 from ..models import pathedit
 
 KEYS = ['a', 'b', 'c', 'd']
+# names that coincide with glom's internal op codes ('x' = *, 'X' = **) and digit strings (a key of a
+# mapping is never an index)
+ODD_KEYS = ['x', 'X', '0', '1', 'P']
 LEAVES = [0, 1, 7, 'x', 'yy', None, True]
 
 
@@ -39,7 +42,7 @@ class TG:
         if r < 0.5:
             t = 'simdict' if sim else (rng.choice(['odict', 'mydict', 'slotdict']) if ex else 'dict')
             nid = self.n()
-            keys = rng.sample(KEYS, rng.randint(0, 3))
+            keys = rng.sample(KEYS if rng.random() < 0.8 else KEYS + ODD_KEYS, rng.randint(0, 3))
             v = [[k, self.node(depth + 1)] for k in keys]
             if rng.random() < 0.15:
                 v.append([rng.choice([0, 1, 2]), self.node(depth + 1)])      # int key
@@ -53,10 +56,11 @@ class TG:
             return {'t': t, 'n': nid, 'v': v}
         if r < 0.82:
             nid = self.n()
-            return {'t': 'tuple', 'n': nid, 'v': [self.node(depth + 1) for _ in range(rng.randint(1, 2))]}
+            return {'t': 'mytuple' if ex else 'tuple', 'n': nid, 'v': [self.node(depth + 1) for _ in range(rng.randint(1, 2))]}
         t = 'simobj' if sim else (rng.choice(['roprop', 'slotted']) if ex else 'obj')
         nid = self.n()
-        keys = rng.sample(['a', 'b'], rng.randint(0, 2)) if t == 'slotted' else rng.sample(KEYS, rng.randint(0, 3))
+        keys = rng.sample(['a', 'b'], rng.randint(0, 2)) if t == 'slotted' else \
+            rng.sample(KEYS if rng.random() < 0.8 else KEYS + ['x', 'X'], rng.randint(0, 3))
         v = [[k, self.node(depth + 1)] for k in keys]
         self.made.append(nid)
         return {'t': t, 'n': nid, 'v': v}
@@ -92,7 +96,7 @@ class TG:
             self.made = []
             self.nid = 0
             r = self.node(0)
-            if isinstance(r, dict) and r['t'] not in ('ref', 'tuple', 'frozenset'):
+            if isinstance(r, dict) and r['t'] not in ('ref', 'tuple', 'mytuple', 'frozenset'):
                 return r
 
 
@@ -140,8 +144,12 @@ def gen_segs(rng, root, allow_wild=False, p_absent=0.3, for_delete=False):
         last = i == n - 1
         kind = cur['t'] if isinstance(cur, dict) else None
         is_map = kind in ('dict', 'odict', 'mydict', 'slotdict', 'simdict')
-        is_seq = kind in ('list', 'mylist', 'slotlist', 'simlist', 'tuple')
+        is_seq = kind in ('list', 'mylist', 'slotlist', 'simlist', 'tuple', 'mytuple')
         is_obj = kind in ('obj', 'simobj', 'roprop', 'slotted')
+        if kind == 'mytuple' and last and rng.random() < 0.4:
+            # a tuple subclass with an instance __dict__: attributes of it can be set and deleted
+            is_seq, is_obj = False, True
+            cur = dict(cur, v=[])
         if allow_wild and not last and not absent and (is_map or is_seq or is_obj) and rng.random() < 0.25:
             segs.append(['X' if rng.random() < 0.3 else 'x', None])
             ch = [v for _, v in cur['v']] if (is_map or is_obj) else list(cur['v'])
